@@ -143,6 +143,11 @@ pub fn gen_case(prop: &str, tier: Tier, seed: u64, idx: u64) -> Option<Case> {
             if thorough && r.chance(1, 4000) {
                 o.max_video = 100_000;
             }
+            if r.chance(1, 30) {
+                // tracks longer than 2^32 ticks (13.25 h): the 64-bit forms of the duration fields
+                let sc = *r.pick(&[1u64, 2, 3, 4, 10]);
+                return Some(crate::run2::c16_case(r, sc));
+            }
             hist_case(gen_history(r, &o))
         }
         "C04" => {
@@ -163,7 +168,7 @@ pub fn gen_case(prop: &str, tier: Tier, seed: u64, idx: u64) -> Option<Case> {
             }
         }
         "C06" => {
-            let o = GenOpts { hostile_pct: 8, reorder_pct: 40, audio_pct: 60, meta_pct: 20, encode_pct: 10, finish_games: r.chance(2, 3), max_video: 16, max_audio: 20, ..Default::default() };
+            let o = GenOpts { hostile_pct: 8, hostile_cfg_pct: 4, reorder_pct: 40, audio_pct: 60, meta_pct: 20, encode_pct: 10, finish_games: r.chance(2, 3), max_video: 16, max_audio: 20, ..Default::default() };
             hist_case(gen_history(r, &o))
         }
         "C07" => return Some(mon_c07_case(r)),
@@ -189,7 +194,10 @@ pub fn gen_case(prop: &str, tier: Tier, seed: u64, idx: u64) -> Option<Case> {
             hist_case(gen_history_for(r, &o, cfg))
         }
         "C10" | "C11" => {
-            let o = FragOpts { big: r.chance(1, 8), constant_interval_pct: if prop == "C11" { 45 } else { 15 }, max_ops: if thorough && r.chance(1, 100) { 1500 } else { 50 }, ..Default::default() };
+            // now and then a recording of well over a thousand calls with hardly any flush
+            // (fragments of many hundreds of samples)
+            let long = r.chance(1, if thorough { 100 } else { 250 });
+            let o = FragOpts { big: r.chance(1, 8), constant_interval_pct: if prop == "C11" { 45 } else { 15 }, max_ops: if long { 1500 } else { 50 }, long_fragments: long && r.chance(2, 3), ..Default::default() };
             let (h, side) = gen_frag_history(r, &o);
             Case::Frag { h, side: Side { av1: side, vp9: None, op: 0 } }
         }
@@ -315,6 +323,11 @@ pub fn eval_case(prop: &str, case: &Case, obs: &mut Obs) -> Vec<Violation> {
                 }
             } else if prop == "C01" && hv % 16 == 0 {
                 one_shot
+            } else if prop == "C01" && hv % 16 == 2 {
+                // sinks that take fewer bytes than offered (any W: Write may): nothing may be lost
+                crate::sink::Fault::OneByte
+            } else if prop == "C01" && hv % 16 == 3 {
+                crate::sink::Fault::Schedule { seed: hv, max_chunk: 9, interrupt_pct: 10 }
             } else {
                 crate::sink::Fault::None
             };
@@ -373,6 +386,10 @@ pub fn eval_case(prop: &str, case: &Case, obs: &mut Obs) -> Vec<Violation> {
                 retry_h.ops.push(Op::Finish(FinishKind::InPlace));
                 h = &retry_h;
                 crate::exec::run_fault(h, &ExecOpts::default(), crate::sink::Fault::FailWrite { k: ((hv >> 8) % 8) as usize, kind: ((hv >> 16) % crate::sink::KINDS.len() as u64) as usize })
+            } else if hv % 16 == 1 {
+                // a sink that takes fewer bytes than offered (any W: Write may)
+                obs.count("runs_with_short_writing_sink", 1);
+                crate::exec::run_fault(h, &ExecOpts::default(), crate::sink::Fault::Schedule { seed: hv, max_chunk: 9, interrupt_pct: 10 })
             } else {
                 run(h, &ExecOpts::default())
             };
